@@ -248,7 +248,8 @@ theorem Inv_run (cfg : Cfg) {c : Ctx} (hw : WF c.st) (hB : ∀ p ∈ c.st.revs, 
 /-- **C09, first clause.**  Take a snapshot, run ANY sequence of mutators, nested snapshots and reverts to those nested
 snapshots: `RevertToSnapshot(id)` succeeds and every observable named in the property (balances, token balances, nonces,
 credits, code, storage, logs, refund counter, self-destruct marks, existence, emptiness) has the value it had at `Snapshot()`.
-Holds for the current code (`Cfg.current`) and the repaired one alike. -/
+Holds for every configuration (pinned, current, repaired).  Without `WellNested`: `revert_exact_any` (Props/C09RevertAny.lean);
+without the privacy half of `Safe` on the current tree: `revert_exact_ns` (Props/C09World.lean). -/
 theorem revert_exact (cfg : Cfg) (c : Ctx) (hw : WF c.st) (hB : ∀ p ∈ c.st.revs, p.1 < c.st.nextRev) (steps : List Step)
     (hs : Safe cfg (snapshot c).1 steps) (hn : WellNested (snapshot c).2 steps) :
     ∃ c2, revertTo (run cfg (snapshot c).1 steps) (snapshot c).2 = some c2 ∧ obs c2 = obs c := by
